@@ -382,8 +382,6 @@ contract(
             "ghost M0 = this['mean']",
             "ghost N0 = this['n_cells']",
         ],
-        # after the entries that are not wanted are dropped
-        "results['cluster_stats'][f'{level}/{node}'] = this": [],
     },
     loops={
         0: [f"mc_same(as_leaves, {AL})", GENES_KEPT, LEVELS_DONE],
